@@ -264,6 +264,83 @@ fn run_tr(case: &Value) -> Obs {
     o
 }
 
+/// `{"kind":"uni","cfg":{..},"layer":"path"|"host"|"header","lit":str,"req_lit":str,"regex":str,"value":str}`: NON-ASCII cased text in
+/// captured values and in literals under the ignore-case flags.  The driver's character model is ASCII, so these cases are judged
+/// on the implementation alone: the value as the layer normalises it (path: sanitised; host / header: `str::to_lowercase` under
+/// the flag) accepted by the real crate's `^(?:re)$` ⇒ the rule matches and Location = `/t/` + that value; rejected (and
+/// delimiter-free, path / host) ⇒ no match.
+fn run_uni(case: &Value) -> Obs {
+    use regex::RegexBuilder;
+    let config = config_of(case);
+    let (layer, lit, req_lit, re, value) = match (s(case, "layer"), s(case, "lit"), s(case, "req_lit"), s(case, "regex"), s(case, "value")) {
+        (Some(a), Some(b), Some(c), Some(d), Some(e)) => (a, b, c, d, e),
+        _ => return Obs::invalid("uni fields"),
+    };
+    if [&lit, &req_lit, &value].iter().any(|t| t.contains('?') || t.contains('/') || t.contains('.') || t.contains(';') || t.contains('=')) {
+        return Obs::invalid("uni: text must be free of the delimiters");
+    }
+    let (rule_src, req_path, req_host, req_hdr, nv, ic_match) = match layer.as_str() {
+        "path" => (json!({"path": format!("/{lit}/@m/x")}), format!("/{req_lit}/{value}/x"), None, None,
+                   redirectionio::http::sanitize_url(&value), config.ignore_path_and_query_case),
+        // (the library lower-cases the WHOLE host / header value: context-sensitive mappings such as the final sigma are judged in
+        // that context, so the expected value is cut out of the lower-cased whole)
+        "host" => {
+            let whole = format!("{value}.{req_lit}.org");
+            let nv = if config.ignore_host_case { whole.to_lowercase().split('.').next().unwrap_or("").to_string() } else { value.clone() };
+            (json!({"path": "/p", "host": format!("@m.{lit}.org")}), "/p".to_string(), Some(whole), None, nv, config.ignore_host_case)
+        }
+        "header" => {
+            let whole = format!("{req_lit}={value};k");
+            let nv = if config.ignore_header_case {
+                let l = whole.to_lowercase();
+                l.split('=').nth(1).unwrap_or("").split(';').next().unwrap_or("").to_string()
+            } else {
+                value.clone()
+            };
+            // the trigger regex is case-sensitive while the request value is lower-cased under the flag (by design, also for ASCII):
+            // the rule literal is written in lower case then
+            let rule_lit = if config.ignore_header_case { lit.to_lowercase() } else { lit.clone() };
+            (json!({"path": "/p", "headers": [{"name": "X-Foo", "type": "match_regex", "value": format!("{rule_lit}=@m;k")}]}), "/p".to_string(), None, Some(whole), nv, false)
+        }
+        _ => return Obs::invalid("uni layer"),
+    };
+    let rule: Rule = match serde_json::from_value(json!({"id": "r", "rank": 1, "source": rule_src, "target": "/t/@m", "status_code": 302,
+                                                         "markers": [{"name": "m", "regex": re, "transformers": []}]})) {
+        Ok(r) => r,
+        Err(e) => return Obs::invalid(&format!("rule json: {e}")),
+    };
+    let mut request = Request::from_config(&config, req_path, req_host, None, None, None, None);
+    if let Some(h) = req_hdr {
+        request.add_header("x-foo".to_string(), h, config.ignore_header_case);
+    }
+    let accepted = match RegexBuilder::new(&format!("^(?:{re})$")).case_insensitive(ic_match).build() {
+        Ok(r) => r.is_match(&nv),
+        Err(_) => return Obs::invalid("uni regex"),
+    };
+    let mut router = Router::<Rule>::from_config(config.clone());
+    router.insert(rule);
+    let routes = router.match_request(&request);
+    let matched = !routes.is_empty();
+    let loc = if matched {
+        let mut action = Action::from_routes_rule(routes, &request, None);
+        action.filter_headers(Vec::new(), 302, false, None).into_iter().find(|h| h.name == "Location").map(|h| h.value)
+    } else {
+        None
+    };
+    let mut o = Obs::new(json!({"match": matched, "loc": loc, "accepted": accepted, "nv": nv}));
+    o.tags.push(format!("kind:uni:{layer}"));
+    if accepted && !matched {
+        return o.fail(format!("the value {nv:?} is accepted by {re:?} but the rule does not match"), "unicode-case");
+    }
+    if accepted && loc != Some(format!("/t/{nv}")) {
+        return o.fail(format!("Location {loc:?} is not /t/ + the normalised value {nv:?}"), "unicode-case");
+    }
+    if !accepted && matched && layer != "header" {
+        return o.fail(format!("the value {nv:?} is rejected by {re:?} but the rule matches"), "unicode-case");
+    }
+    o
+}
+
 /// `{"kind":"law","ic":bool,"ts":[["l",char]|["g",name,re]..],"s":str}`: the ASSUMPTION of the matching theorems, checked on the
 /// real crate: the pattern rendered from the tokens matches exactly the strings that decompose along the tokens (each group
 /// value accepted by `^(?:re)$`), unanchored search = some substring decomposes, the captures are the first-occurrence values
@@ -414,6 +491,9 @@ fn run(case: &Value) -> Obs {
     }
     if get(case, "kind").as_str() == Some("tr") {
         return run_tr(case);
+    }
+    if get(case, "kind").as_str() == Some("uni") {
+        return run_uni(case);
     }
     // query strings (sorting, marketing parameters) are C09's: paths here have none, and start with '/'
     for p in [s(case, "path"), s(get(case, "req"), "path")] {
@@ -904,6 +984,28 @@ fn gen_sub(rng: &mut Prng) -> Value {
     json!({"kind": "sub", "vars": vars, "ts": ts})
 }
 
+/// Non-ASCII cased text under the ignore-case flags (implementation-only oracles).
+fn gen_uni(rng: &mut Prng) -> Value {
+    let values = ["\u{c9}COLE", "\u{3a9}mega", "\u{416}\u{423}\u{41a}", "STRA\u{1e9e}E", "\u{130}stanbul", "\u{1c5}", "\u{1c4}x", "\u{c7}A", "caf\u{e9}", "\u{65e5}\u{672c}", "Stra\u{df}e", "\u{3a3}\u{391}\u{3a3}"];
+    let rejected = ["", "\u{c9}-cole", "\u{c9} b", "a\u{416}!"];
+    let lits = ["CAF\u{c9}", "\u{3a9}", "\u{416}k", "\u{1e9e}", "\u{c9}cole", "p"];
+    let layer = *rng.pick(&["path", "host", "header"]);
+    let cfg = json!({"ipc": rng.chance(1, 2), "ihc": rng.chance(1, 2), "ihdc": rng.chance(1, 2)});
+    let lit = *rng.pick(&lits);
+    // the request literal differs in case only where the layer folds case with Unicode awareness (host under ignore_host_case)
+    let req_lit = if layer == "host" && cfg["ihc"] == json!(true) && rng.chance(1, 2) {
+        if rng.chance(1, 2) { lit.to_lowercase() } else { lit.to_uppercase() }
+    } else {
+        lit.to_string()
+    };
+    let (re, value) = if rng.chance(3, 4) {
+        (*rng.pick(&["[^/.;]+", "\\w+", ".+?", "[^/.;]+?"]), *rng.pick(&values))
+    } else {
+        (*rng.pick(&["\\w+", "[^/.; !-]+"]), *rng.pick(&rejected))
+    };
+    json!({"kind": "uni", "cfg": cfg, "layer": layer, "lit": lit, "req_lit": req_lit, "regex": re, "value": value})
+}
+
 /// The assumption of the matching theorems on the real crate: token list x haystack.
 fn gen_law(rng: &mut Prng) -> Value {
     let ic = rng.chance(1, 3);
@@ -1144,6 +1246,8 @@ fn gen(args: &Args, emit: &mut dyn FnMut(Value)) {
             emit(gen_law(&mut rng));
         } else if i % 16 == 2 {
             emit(gen_tr(&mut rng));
+        } else if i % 16 == 10 {
+            emit(gen_uni(&mut rng));
         } else {
             emit(gen_case(&mut rng));
         }
